@@ -164,6 +164,17 @@ CHECKS['C06'] = dict(
     technique='Coq proofs about the stream splice/expand model and the lookup function (file system as a section variable); vm_compute correspondence on preprocessed include trees and all lookup '
               'placements; temp-directory layout / lookup / !path oracles for replays')
 
+CHECKS['C18'] = dict(
+    text='Machine-checked: C18_content (for EVERY tree of plain kinds with any explicit / inherited flags and any elision-stack state, the document parsed back from a successful dump holds the '
+         'same data), C18_roundtrip_partial (for every parsed document on which the elision drops nothing but unset keys the re-parsed document is THE SAME TREE - all raw and inherited flags, '
+         'metadata, sources - hence C18_substitute_partial: interchangeable at any position of any merge sequence, and C18_dump_fixpoint_partial), and C18_elision_refuted: the full statement is '
+         'false of the faithful model (witness {a: [!merge {}]}, known finding D13a). The dump model (every emitted / elided mark, the lone-tag rule, the stack discipline) and the loader model '
+         'on dumped text are tied to the code by correspondence. Partial: dynamic node kinds, scalar text emission / quoting and "evaluates the same" are decided by the implementation oracle '
+         '(merge histories over the full vocabulary, the exhaustive two-level mark x mark nesting product, strings that need quoting), not by theorems.',
+    design='4 (C18), 6 (D13)',
+    technique='Coq proofs about the dump (elision) model composed with the loader model; vm_compute correspondence dump_doc = emitted tagged graph and load_doc = parse on dumped text; '
+              'substitute-in-merge-sequence / metadata / evaluate / second-dump oracles for replays')
+
 NOT_APPLICABLE = {}
 
 
